@@ -28,6 +28,16 @@ def stores_for(ctx, mix, scale=1):
         out.append((pipe.single(gen.render(rng, gen.program(rng))), "a.s", "random"))
     for _ in range(mix.get("handlers", 0) * k):
         out.append((pipe.single(gen.handler_prog(rng)), "a.s", "handlers"))
+    for _ in range(mix.get("labeldir", 0) * k):        # a directive between a label and the instruction it names (.align, .text, .globl)
+        L = gen.conforming(rng, nfuncs=rng.randrange(1, 4))[0] if rng.random() < 0.6 else [l for l in gen.random_flow(rng).split("\n") if l.strip()]
+        out_l = []
+        for l in L:
+            out_l.append(l)
+            if l.endswith(":") and rng.random() < 0.5:
+                out_l.append(rng.choice([".align 2", ".text", ".globl main", ".align 4", ".text"]))
+        out.append((pipe.single("\n".join(out_l) + "\n"), "a.s", "labeldir"))
+    for _ in range(mix.get("zeroreg", 0) * k):         # writes to x0 with a computable result, directly followed by reads of x0
+        out.append((pipe.single(gen.zero_reg_prog(rng)), "a.s", "zeroreg"))
     for _ in range(mix.get("stoptree", 0) * k):       # the analysis stops on a condition that lies (also) in an included file
         f, _n, kind, _w = gen.stopping_tree(rng)
         out.append((f, "a.s", "stoptree:" + kind))
